@@ -115,6 +115,10 @@ impl NetcodeClientTransport {
                 }
                 Err(ref e) if e.kind() == io::ErrorKind::WouldBlock => break,
                 Err(ref e) if e.kind() == io::ErrorKind::Interrupted => break,
+                // The server is unreachable (ICMP answer to a previous send, reported on connected
+                // sockets and on Windows): not fatal, the client must keep running its clock to time out.
+                Err(ref e) if e.kind() == io::ErrorKind::ConnectionReset => continue,
+                Err(ref e) if e.kind() == io::ErrorKind::ConnectionRefused => continue,
                 Err(e) => return Err(NetcodeTransportError::IO(e)),
             };
 
